@@ -372,6 +372,23 @@ def build(P):
                   "TYPE R\n\nDECLARE f : INTEGER\n// comment\nDECLARE g : STRING\n\nENDTYPE\nDECLARE r : R\nOUTPUT r.f, \"[\", r.g, \"]\"",
                   "TYPE R\nDECLARE f : INTEGER\nENDTYPE\nDECLARE r : R\nOUTPUT r\nr", "PROCEDURE P\nTYPE L\nDECLARE v : INTEGER\nENDTYPE\nDECLARE x : L\nx.v <- 3\nOUTPUT x.v\nENDPROCEDURE\nCALL P\nCALL P"]
         yield ("shapes", [Case(id="C07-shape-%d" % i, prog=(s + "\n").encode()) for i, s in enumerate(shapes)])
+        # record types whose array-member bounds are expressions over variables: two values of ONE record type with different extents, through every copy channel
+        # (the model copies the whole value; see known_findings.json for what the interpreter does)
+        dyn = []
+        for (n1, n2) in [(2, 4), (4, 2), (1, 3), (3, 3)]:
+            hi = max(n1, n2)
+            tl = ["DECLARE n : INTEGER", "n <- %d" % n1, "TYPE DynRec", "DECLARE a : ARRAY[1:n] OF INTEGER", "DECLARE k : INTEGER", "ENDTYPE", "DECLARE x : DynRec", "n <- %d" % n2, "DECLARE y : DynRec"]
+            tl += ["x.a[%d] <- %d" % (i, 90 + i) for i in range(1, n1 + 1)] + ["y.a[%d] <- %d" % (i, 10 + i) for i in range(1, n2 + 1)] + ["y.k <- 7"]
+            def dumpd(v, tag, upto):
+                return ["OUTPUT \"%s k=\", %s.k" % (tag, v)] + ["OUTPUT \"%s a[%d]=\", %s.a[%d]" % (tag, i, v, i) for i in range(1, upto + 1)]
+            for chan in ["assign", "byval", "return", "element"]:
+                L = list(tl)
+                if chan == "assign": L += ["x <- y"] + dumpd("x", "copied", n2)
+                elif chan == "byval": L += ["PROCEDURE P(r : DynRec)"] + dumpd("r", "copied", n2) + ["ENDPROCEDURE", "n <- %d" % n1, "CALL P(y)"]
+                elif chan == "return": L += ["FUNCTION F() RETURNS DynRec", "RETURN y", "ENDFUNCTION", "x <- F()"] + dumpd("x", "copied", n2)
+                elif chan == "element": L += ["n <- %d" % n1, "DECLARE arr : ARRAY[1:2] OF DynRec", "arr[2] <- y"] + dumpd("arr[2]", "copied", n2)
+                dyn.append(Case(id="C07-dynbounds-%d-%d-%s" % (n1, n2, chan), prog=("\n".join(L) + "\n").encode(), meta=dict(units=["dyn/%d/%d/%s" % (n1, n2, chan)], features=["rec_copy", "rec_dynbounds"])))
+        yield ("dynamic-bounds", dyn)
 
     C07 = dict(cases=c07_cases, model_is_oracle=("out", "exit", "files", "termination"), builds=["normal", "san"], nontrivial=lambda c, r, m: b"copied" in r.out or c.id.startswith("C07-shape"),
                rule="random record definitions with up to 3 nesting levels, scalar fields of every primitive type, array fields and arrays of records; for each, every copy channel "
